@@ -21,7 +21,7 @@ Qed.
 
 (* two instrument kinds that differ in the addition only *)
 Definition same_but_add (o o' : ops) : Prop :=
-  (forall v, o_key o v = o_key o' v) /\ o_min0 o = o_min0 o' /\ o_max0 o = o_max0 o'.
+  (forall b v, o_lt o b v = o_lt o' b v) /\ o_min0 o = o_min0 o' /\ o_max0 o = o_max0 o'.
 
 Lemma dbl_dblx_same : forall s, same_but_add (dbl_ops s) (dblx_ops s).
 Proof. intros s. repeat split. Qed.
@@ -38,7 +38,9 @@ Proof.
   intros h h' v H. apply nosum_fields in H. destruct H as (Hb & Hc & Hn & Hmn & Hmx & Hr & Hm).
   destruct Hsame as (Hk & _ & _).
   apply nosum_fields. unfold aggregate. cbn [h_bounds h_counts h_count h_sum h_min h_max h_rmm h_rmm_mem].
-  rewrite Hb, Hc, Hn, Hmn, Hmx, Hr, Hm, Hk. repeat split.
+  rewrite Hb, Hc, Hn, Hmn, Hmx, Hr, Hm.
+  rewrite (bucketp_ext2 (h_bounds h') (fun b => o_lt o b v) (fun b => o_lt o' b v)) by (intros b; apply Hk).
+  repeat split.
 Qed.
 
 Lemma nosum_merge : forall a a' b b', nosum a = nosum a' -> nosum b = nosum b' ->
